@@ -28,12 +28,19 @@ for pid in sorted(os.listdir(os.path.join(root, "seeded"))):
     lr = os.path.join(d, ".last_run")
     if not os.path.exists(lr):
         continue
-    base, tests, mut, res = open(lr).read().strip().split("|")
+    parts = open(lr).read().strip().split("|")
+    base, tests, mut, res = parts[:4]
+    head = parts[4] if len(parts) > 4 else None
+    old = os.path.join(d, "meta.json")
+    if head is None and os.path.exists(old):
+        head = json.load(open(old)).get("repo_head_when_confirmed")
+    head = head or ("4821a27 (round 1 worktree base)" if "-r" not in pid else "da4a671 (round 2 worktree base)")
     results = dict(x.split(":rc=") for x in res.split())
     caught = [k for k, v in results.items() if v == "1"]
     meta = {
         "property": pid.split("-")[0],
         "origin": "written by an independent sub-agent that saw only the property text and a scratch worktree of /repo",
+        "repo_head_when_confirmed": head,
         "needs_to_manifest": NEEDS.get(pid, "") or "see NOTES.md",
         "confirmed": {
             "demo_on_unchanged_tree_exit": int(base), "demo_with_change_exit": int(mut),
